@@ -127,9 +127,12 @@ def check(rep, pid, tier, seed):
         for kk, p in out:
             rep.violation("C03 %s" % p, dict(mode="rest", cfg=list(cfgs[kk]), k=kk), key=p[:40])
     preds = numeric_predicates(filt._imports(), seed)
-    for name, holds, detail in preds:
-        if not holds:
-            rep.violation("C03 numeric predicate %s does not hold: %s" % (name, detail), dict(mode="numeric", name=name, seed=seed), key=name)
+    rounds = [(seed, preds)] + ([(seed + 1000 * k, numeric_predicates(filt._imports(), seed + 1000 * k)) for k in range(1, 9)] if tier == "thorough" else [])
+    for sd_, pr_ in rounds:
+        for name, holds, detail in pr_:
+            if not holds:
+                rep.violation("C03 numeric predicate %s does not hold: %s" % (name, detail), dict(mode="numeric", name=name, seed=sd_), key=name)
+    rep.extra["numeric_predicate_rounds"] = len(rounds)
     rep.extra["numeric_predicates"] = [dict(name=n, holds=bool(h), detail=d) for n, h, d in preds]
     rep.traces += len(cfgs) + 43
     rep.evaluations += len(cfgs) + len(preds)
